@@ -549,7 +549,7 @@ class ActionTypeHint(Action):
             val = self._check_type_(val, append=append, cfg=cfg)
             if is_subclass_spec(val):
                 prev_val = cfg.get(self.dest)
-                if is_subclass_spec(prev_val) and "init_args" in prev_val:
+                if isinstance(prev_val, Namespace) and is_subclass_spec(prev_val) and "init_args" in prev_val:
                     ActionTypeHint.discard_init_args_on_class_path_change(
                         self,
                         prev_val.init_args,
